@@ -1,5 +1,6 @@
 import JjModel.Lemmas.RevsetResolve
 import JjModel.Lemmas.RevsetOptPasses3
+import JjModel.Lemmas.RevsetOptPres
 /-!
   C19 — revset evaluation matches set semantics: theorems about the model
   `JjModel.Revset` (`lean/JjModel/Model/Revset.lean`: the definitions the driver runs;
@@ -305,6 +306,78 @@ theorem optimized_eq_unoptimized (g : Graph) (hw : g.WF) (hr : Rooted g) (e : Ex
   rw [s₁.2 p, optimize_sound g hw hr e hwf]
   exact (s₂.2 p).symm
 
+/-! ## the full grammar (with the optimizer's `HeadsRange`) -/
+
+theorem okEH_wf (g : Graph) : ∀ (e : Expr), OkEH g e → e.WF g := by
+  intro e
+  induction e with
+  | commits l => intro h; exact h
+  | ancestors h lo hi fp ih => intro hok; exact ih hok
+  | descendants r lo hi ih => intro hok; exact ih hok
+  | heads x ih => intro hok; exact ih hok
+  | roots x ih => intro hok; exact ih hok
+  | forkPoint x ih => intro hok; exact ih hok
+  | latest x n ih => intro hok; exact ih hok
+  | notIn x ih => intro hok; exact ih hok
+  | range r h lo hi fp ihr ihh => intro hok; exact ⟨ihr hok.1, ihh hok.2⟩
+  | dagRange r h ihr ihh => intro hok; exact ⟨ihr hok.1, ihh hok.2⟩
+  | coalesce r h ihr ihh => intro hok; exact ⟨ihr hok.1, ihh hok.2⟩
+  | union r h ihr ihh => intro hok; exact ⟨ihr hok.1, ihh hok.2⟩
+  | inter r h ihr ihh => intro hok; exact ⟨ihr hok.1, ihh hok.2⟩
+  | diff r h ihr ihh => intro hok; exact ⟨ihr hok.1, ihh hok.2⟩
+  | headsRange r h fp f ihr ihh ihf => intro hok; exact ⟨ihr hok.1, ihh hok.2.1, ihf hok.2.2⟩
+  | reachable s d _ _ => intro hok; exact absurd hok (by simp [OkEH])
+  | none => intro _; trivial
+  | all => intro _; trivial
+  | visibleHeads => intro _; trivial
+  | visibleHeadsOrReferenced => intro _; trivial
+  | root => intro _; trivial
+
+/-- `heads_from_range_and_filter` (the `HeadsRange` arm): heads of
+`{c ∈ ancestors(H) | c ∉ ::roots, filter c}` -/
+theorem heads_range_spec (g : Graph) (hw : g.WF) (fp : Bool) (filter : Nat → Bool)
+    (roots H : List Nat) (hH : ∀ h ∈ H, h < g.size) (hr : ∀ r ∈ roots, r < g.size)
+    (hdH : Desc H) (hdr : Desc roots) :
+    Desc (headsRangeArm g fp filter roots (diffDesc H roots)) ∧
+      ∀ p, p ∈ headsRangeArm g fp filter roots (diffDesc H roots) ↔
+        HeadsOf g (fun c => (∃ h ∈ H, Path (g.adj fp) h c) ∧ (¬ ∃ r ∈ roots, Path g.par r c) ∧
+          filter c = true) p :=
+  ⟨desc_headsRangeArm g hw fp filter roots _, mem_headsRangeArm g hw fp filter roots H hH hr hdH hdr⟩
+
+/-- `eval_sound` for every modelled expression except `reachable` (now including the
+optimizer-internal `HeadsRange` with its predicate filter), for an arbitrary list of referenced
+commits that covers the literals of the expression; needs a rooted graph because a `HeadsRange`
+filter `all()`/`~x` is only equivalent to its predicate form on visible commits. -/
+theorem eval_sound_full_refs (g : Graph) (hw : g.WF) (hr : Rooted g) (refs : List Nat)
+    (hrefs : ∀ x ∈ refs, x < g.size) (e : Expr) (hok : OkEH g e) (hin : RefsIn (refs ++ g.heads) e) :
+    Desc (eval g (resolve g refs e)) ∧
+      ∀ p, p ∈ eval g (resolve g refs e) ↔ denote g (refs ++ g.heads) e p := by
+  have hR := (resolveH_ok g hw refs hrefs e hok).1
+  have hs := eval_spec g hw _ hR
+  have hd := (resolveH_spec g refs (ctx_of g hw hr refs hrefs) e hok hin).1
+  exact ⟨hs.desc, fun p => (hs.mem p).trans (hd p)⟩
+
+/-- **Main theorem, full grammar.** -/
+theorem eval_sound_full (g : Graph) (hw : g.WF) (hr : Rooted g) (e : Expr) (hok : OkEH g e) :
+    Desc (evalTop g e) ∧ ∀ p, p ∈ evalTop g e ↔ denoteTop g e p :=
+  eval_sound_full_refs g hw hr (refsOf e) (wf_refsOf_lt g e (okEH_wf g e hok)) e hok
+    (fun x hx => by simp [hx])
+
+/-- **Optimized = unoptimized**, unconditionally on the full grammar: for every rooted
+well-formed graph and every modelled expression without `reachable`, `evaluate` (optimize, then
+resolve and run the engine) and `evaluate_unoptimized` return the same list. -/
+theorem optimized_eq_unoptimized_full (g : Graph) (hw : g.WF) (hr : Rooted g) (e : Expr)
+    (hok : OkEH g e) : evalTopOpt g e = evalTop g e := by
+  have hwf := okEH_wf g e hok
+  have hrefs := wf_refsOf_lt g e hwf
+  have hopt := optimize_sound_ctx (ctx_of g hw hr (refsOf e) hrefs) e (fun x hx => by simp [hx])
+  have s₁ := eval_sound_full_refs g hw hr (refsOf e) hrefs (optimize e) (optimize_pres e hok) hopt.1
+  have s₂ := eval_sound_full g hw hr e hok
+  refine desc_ext s₁.1 s₂.1 fun p => ?_
+  show p ∈ eval g (resolve g (refsOf e) (optimize e)) ↔ _
+  rw [s₁.2 p, hopt.2]
+  exact (s₂.2 p).symm
+
 /-! ## non-vacuity: a concrete graph with a merge and a hidden commit -/
 
 /-- executable check of `Graph.WF` (for the examples) -/
@@ -375,5 +448,12 @@ example : evalTopOpt exG (.diff (.ancestors (.commits [4]) 0 none false) (.ances
           foldAncestorsUnionF, foldHeadsRangeF, toHeadsRange, toFilteredRange, ancestorsToHeadsPr,
           ancestorsToHeads, foldDifferenceF, toDifference, toDifferenceRange, foldNotInAncestorsF,
           OkE, exG, Graph.size])
+
+/-- `heads(~(::1) & ::4)` is rewritten to `HeadsRange{roots: 1, heads: 4, filter: all}` -/
+example : evalTopOpt exG (.heads (.inter (.notIn (.ancestors (.commits [1]) 0 none false))
+      (.ancestors (.commits [4]) 0 none false)))
+    = evalTop exG (.heads (.inter (.notIn (.ancestors (.commits [1]) 0 none false))
+      (.ancestors (.commits [4]) 0 none false))) :=
+  optimized_eq_unoptimized_full exG exG_wf exG_rooted _ (by simp [OkEH, exG, Graph.size])
 
 end JjModel.C19
